@@ -53,6 +53,20 @@ impl SO3State {
         let norm = (self.x.powi(2) + self.y.powi(2) + self.z.powi(2) + self.w.powi(2)).sqrt();
         if norm < 1e-9 {
             Err(StateError::ZeroMagnitude)
+        } else if norm.is_infinite() {
+            // The squares of finite components overflow from about 1.3e154: dividing by an infinite norm
+            // would give the zero quaternion. Bring the largest component to 1 first (the direction is
+            // unchanged) and normalise that.
+            let xy = self.x.abs().max(self.y.abs());
+            let zw = self.z.abs().max(self.w.abs());
+            let largest = xy.max(zw);
+            SO3State {
+                x: self.x / largest,
+                y: self.y / largest,
+                z: self.z / largest,
+                w: self.w / largest,
+            }
+            .normalise()
         } else {
             Ok(SO3State {
                 x: self.x / norm,
